@@ -75,6 +75,9 @@ fn mutate(p: &str, r: &mut Rng) -> String {
 
 pub fn run(sink: &mut Sink, thorough: bool, seed: u64) {
     let mut r = Rng::new(seed);
+    // arbitrary_precision, quick tier: only `Value == primitive` over string-backed numbers (what the feature changes);
+    // the pointer / index / json! ops run under this feature in the thorough tier
+    if cfg!(feature = "ap") && !thorough { run_peq(sink, thorough, &mut r); return; }
     // fixed corpus: index edge cases on a 12-element array and an object with index-like keys
     let arr = Value::Array((0..12).map(Value::from).collect());
     for p in ["", "/", "/0", "/00", "/01", "/1", "/11", "/12", "/011", "/+1", "/-", "/-1", "/1e0", "/ 1", "/1 ", "/٣",
@@ -116,7 +119,6 @@ pub fn run(sink: &mut Sink, thorough: bool, seed: u64) {
         }
     }
     run_index(sink, thorough, &mut r);
-    #[cfg(not(feature = "ap"))]
     run_peq(sink, thorough, &mut r);
     run_jsonm(sink, thorough, seed, &mut r);
 }
@@ -324,14 +326,22 @@ fn obs_peq(ty: &str, c: &str, v: &Value) -> Option<String> {
 fn emit_peq(sink: &mut Sink, ty: &str, c: &str, v: &Value, tag: &str) {
     if let Some(o) = obs_peq(ty, c, v) {
         let t = format!("peq:{}:{}:{}:{}", ty, kind(v), tag, if o.contains('t') { "eq" } else { "ne" });
-        sink.case("peq", &[ty, c, &enc(v)], &o, &t, matches!(v, Value::Number(_) | Value::String(_) | Value::Bool(_)));
+        let nt = matches!(v, Value::Number(_) | Value::String(_) | Value::Bool(_));
+        // builds with arbitrary_precision carry their configuration tag: the driver then runs the string-backed model
+        if cfg!(feature = "ap") { sink.case("peq", &[ty, c, &enc(v), &crate::obs::cfg_tag()], &o, &t, nt); }
+        else { sink.case("peq", &[ty, c, &enc(v)], &o, &t, nt); }
     }
 }
 
 fn replay_peq(sink: &mut Sink, toks: &[&str]) {
-    if toks.len() != 4 { return; }
+    if toks.len() != 4 && toks.len() != 5 { return; }
+    // a case recorded under arbitrary_precision (fifth token = its cfg tag) replays only in such a build, and vice versa
+    if (toks.len() == 5) != cfg!(feature = "ap") { return; }
     let v = dec_value(toks[3]);
-    if let Some(o) = obs_peq(toks[1], toks[2], &v) { sink.case("peq", &[toks[1], toks[2], toks[3]], &o, "replay", true); }
+    if let Some(o) = obs_peq(toks[1], toks[2], &v) {
+        if toks.len() == 5 { sink.case("peq", &[toks[1], toks[2], toks[3], toks[4]], &o, "replay", true); }
+        else { sink.case("peq", &[toks[1], toks[2], toks[3]], &o, "replay", true); }
+    }
 }
 
 fn peq_values() -> Vec<Value> {
@@ -347,6 +357,20 @@ fn peq_values() -> Vec<Value> {
     for f in [0.0f64, -0.0, 1.0, -1.0, 1.5, 0.5, 127.0, 128.0, 255.0, 256.0, 9007199254740992.0, 9007199254740994.0, 9223372036854775808.0, 18446744073709551616.0,
               -9223372036854775808.0, 1e300, -1e300, f32::MAX as f64, 3.5e38, 0.1, 0.1f32 as f64, 16777217.0, 5e-324, f64::MAX, f64::MIN_POSITIVE, 1e-46, f32::MIN_POSITIVE as f64] {
         vs.push(Value::from(f));
+    }
+    // arbitrary_precision: numbers as parsed literals, in spellings `Value::from` never produces
+    #[cfg(feature = "ap")]
+    for lit in ["-0", "0", "-0.0", "0.0", "0e0", "-0e-5", "1.0", "1.00", "1e0", "1E2", "1e2", "100", "100.0", "10e1", "1000e-1", "0.1", "0.10", "1e-1",
+                "255", "255.0", "2.55e2", "256", "-128", "-128.0", "-1.28e2", "127", "65535", "65536", "16777216", "16777217", "16777217.0", "16777218",
+                "9007199254740992", "9007199254740993", "9007199254740993.0", "9223372036854775807", "9223372036854775808", "-9223372036854775808", "-9223372036854775809",
+                "18446744073709551615", "18446744073709551616", "18446744073709551615.0", "1.8446744073709551615e19", "340282366920938463463374607431768211455",
+                "3.4028234663852886e38", "3.4028235e38", "3.4028236e38", "340282356779733661637539395458142568448", "1e38", "1e39", "1.7976931348623157e308", "1.7976931348623158e308",
+                "1.7976931348623159e308", "1e308", "1e309", "1e400", "-1e400", "1e-400", "-1e-400", "5e-324", "4.9e-324", "2.4703282292062327e-324", "2.4703282292062328e-324",
+                "1e-45", "7e-46", "1.401298464324817e-45", "0.30000000000000004", "0.1000000000000000055511151231257827021181583404541015625",
+                "123456789012345678901234567890", "0.000000000000000000000000000000000000000000000000000001", "1.5", "-1.5", "0.5", "2e0", "1e22", "1e23",
+                // just above the midpoint of two adjacent f32 (1 + 2^-24) by less than half an f64 ulp: one rounding gives 1.0000001, two give 1.0
+                "1.00000005960464477539062500001", "1.000000059604644775390625", "1.00000005960464477539062499999"] {
+        vs.push(serde_json::from_str(lit).unwrap());
     }
     vs
 }
@@ -373,7 +397,7 @@ fn run_peq(sink: &mut Sink, thorough: bool, r: &mut Rng) {
                 9223372036854775808.0, -9223372036854775808.0, 18446744073709551616.0, 18446744073709549568.0, 1e300, -1e300, 0.1, 0.1f32 as f64, f32::MAX as f64, 16777216.0, 5e-324, f64::MAX];
     for x in f64s { let c = format!("{:016x}", x.to_bits()); for v in &vs { emit_peq(sink, "f64", &c, v, "boundary"); } }
     let f32s = [0.0f32, -0.0, f32::NAN, f32::INFINITY, f32::NEG_INFINITY, 1.0, -1.0, 1.5, 127.0, 255.0, 16777216.0, 16777218.0, 9007199254740992.0, 9223372036854775808.0,
-                -9223372036854775808.0, 18446744073709551616.0, 0.1, f32::MAX, f32::MIN_POSITIVE, 1e-45, 0.5];
+                -9223372036854775808.0, 18446744073709551616.0, 0.1, f32::MAX, f32::MIN_POSITIVE, 1e-45, 0.5, f32::from_bits(0x3f800001)];
     for x in f32s { let c = format!("{:08x}", x.to_bits()); for v in &vs { emit_peq(sink, "f32", &c, v, "boundary"); } }
     for b in ["t", "f"] { for v in &vs { emit_peq(sink, "bool", b, v, "boundary"); } }
     for s in ["", "1", "a", "true", "-1", "é", "null"] { let c = hexf(s.as_bytes()); for v in &vs { emit_peq(sink, "str", &c, v, "boundary"); } }
@@ -381,6 +405,8 @@ fn run_peq(sink: &mut Sink, thorough: bool, r: &mut Rng) {
     let n = if thorough { 200000 } else { 20000 };
     for _ in 0..n {
         let v = if r.chance(3, 4) { Value::Number(gen_number(r)) } else { gen_value(r, 1) };
+        #[cfg(feature = "ap")]
+        let v = if r.chance(1, 2) { serde_json::from_str(&crate::gen::gen_number_text(r)).unwrap_or(v) } else { v };
         let ty = *r.pick(&["i8", "i16", "i32", "i64", "isize", "u8", "u16", "u32", "u64", "usize", "f32", "f64", "bool", "str"]);
         let c: String = match ty {
             "f64" => { let x = match r.below(3) { 0 => v.as_f64().unwrap_or(1.0), 1 => f64::from_bits(v.as_f64().unwrap_or(1.0).to_bits().wrapping_add(1)), _ => f64::from_bits(r.next()) }; format!("{:016x}", x.to_bits()) }
